@@ -38,6 +38,51 @@ def _dict_items(e):
     return {show(k_): v for k_, v in zip(keys, vals)}
 
 
+def attr_alias_norm(fdef):
+    """`N = <fresh container>; ...; self.A = N` with N bound once: N and self.A name the same object from then on, so the function is
+    read with `self.A = <fresh container>` in place of the first statement and `self.A` for every later use of N (a copy of the
+    function is returned; the original tree is left as parsed)"""
+    import copy
+    f = copy.deepcopy(fdef)
+    body = f.body
+    binds = {}
+    for n in ast.walk(f):
+        if isinstance(n, ast.Name) and isinstance(n.ctx, (ast.Store, ast.Del)):
+            binds[n.id] = binds.get(n.id, 0) + 1
+    for i, st in enumerate(body):
+        if not (isinstance(st, ast.Assign) and len(st.targets) == 1 and isinstance(st.targets[0], ast.Name) and binds.get(st.targets[0].id) == 1 and
+                isinstance(st.value, (ast.Dict, ast.List)) and not (st.value.keys if isinstance(st.value, ast.Dict) else st.value.elts)):
+            continue
+        nm = st.targets[0].id
+        for j in range(i + 1, len(body)):
+            s2 = body[j]
+            if isinstance(s2, ast.Assign) and len(s2.targets) == 1 and isinstance(s2.targets[0], ast.Attribute) and dotted(s2.targets[0]) and \
+                    dotted(s2.targets[0]).startswith("self.") and isinstance(s2.value, ast.Name) and s2.value.id == nm:
+                if any(isinstance(x, ast.Name) and x.id == nm for k_ in range(i + 1, j) for x in ast.walk(body[k_])):
+                    break               # used in between: keep as written
+                attr = s2.targets[0]
+
+                class _R(ast.NodeTransformer):
+                    def visit_Name(self, n):
+                        if n.id == nm and isinstance(n.ctx, ast.Load):
+                            return ast.copy_location(copy.deepcopy(attr), n)
+                        return n
+                new_first = ast.copy_location(ast.Assign(targets=[copy.deepcopy(attr)], value=st.value), s2)
+                for a_ in ast.walk(new_first.targets[0]):
+                    if hasattr(a_, "ctx"):
+                        a_.ctx = ast.Store()
+                new_first.targets[0].value.ctx = ast.Load()
+                rest = [_R().visit(x) for x in body[j + 1:]]
+                for x in rest:
+                    for a_ in ast.walk(x):
+                        if isinstance(a_, ast.Attribute) and dotted(a_) == dotted(attr) and isinstance(getattr(a_, "ctx", None), ast.Store):
+                            pass
+                f.body = body[:i] + body[i + 1:j] + [new_first] + rest
+                ast.fix_missing_locations(f)
+                return attr_alias_norm(f)
+    return f
+
+
 def _loop_paths(pe, line=None):
     return [p_ for tag, p_ in getattr(pe, "loop_paths", []) if line is None or tag == f"loop@{line}"]
 
@@ -93,7 +138,7 @@ def run(rep):
     rep.check(oks, "R19.a", rel, "SiteBatch.search", "search returns the batch whose content (self[ibatch]) contains the site", "", line=se.lineno)
 
     # ---------------- R19.b ----------------------------------------------------------------------------------------------------------
-    cp = mod.func("OptionManager.from_cartesian_product")
+    cp = attr_alias_norm(mod.func("OptionManager.from_cartesian_product"))
     pe = pq.PEval()
     cpaths = [p_ for p_ in pe.run(cp) if p_.how in ("end", "return")]
     if not cpaths:
@@ -119,27 +164,29 @@ def run(rep):
     rep.check(okw, "R19.b", rel, "OptionManager.from_cartesian_product", "bare scalars / strings are wrapped into one-element lists; option names stored as strings",
               "; ".join(repr(e)[:100] for e in stores)[:300], line=cp.lineno)
     apps = [e for e in p_.effects if e.kind == 'call' and e.target == "self.tasks.append" and e.loops]
-    okp, det = False, "task append in a product loop not found"
+    exts = [e for e in p_.effects if e.kind == 'call' and e.target == "self.tasks.extend" and not e.loops]
+    okp, det = False, "task append in a product loop (or extend over a product) not found"
     prodloops = [n for n in ast.walk(cp) if isinstance(n, ast.For) and isinstance(n.iter, ast.Call)]
+    pairs = []          # (iterable Expr, appended element Expr with T = elem(iterable))
+    env = p_.env
     if apps and prodloops:
-        # iterable of the loop that appends
         lp = [n for n in prodloops if f"loop@{n.lineno}" in apps[0].loops]
-        if lp:
-            # environment of names at the loop: rebuild by evaluating the function up to the loop with PEval's env of the completing path
-            env = p_.env
-            it = pq.PB().build(lp[0].iter, env)
-            KEYS = "list(self.options.keys())"
-            forms = [f"prod(*[self.options[sk] for sk in {KEYS}])", "prod(*list(self.options.values()))", "prod(*self.options.values())",
-                     f"prod(*[self.options[sk] for sk in self.options])", f"prod(*[self.options[sk] for sk in self.options.keys()])"]
-            pn = [k_ for k_, v in mod.imports.items() if v == "itertools.product"] + ["product", "itertools.product"]
-            it_ok = any(pq.same(_rename_call(it, pn), f_, env) for f_ in forms)
-            T = ('call', 'elem', (it,))
-            appended = apps[0].val[2][1] if pq.call_named(apps[0].val, ".append") else None
-            labs = [('call', 'py.dict', (('call', 'py.zip', (pq.parse(KEYS, env), T)),)), ('call', 'py.dict', (('call', 'py.zip', (pq.parse("self.options.keys()", env), T)),)),
-                    ('call', 'py.dict', (('call', 'py.zip', (pq.parse("self.options", env), T)),))]
-            lab_ok = appended is not None and any(pq.same(appended, l_) for l_ in labs)
-            okp = it_ok and lab_ok
-            det = f"iterable {show(it)[:100]} ({it_ok}); appended {show(appended)[:100] if appended else None} ({lab_ok})"
+        if lp and pq.call_named(apps[0].val, ".append"):
+            pairs.append((pq.PB().build(lp[0].iter, env), apps[0].val[2][1]))
+    for e in exts:
+        v = e.val
+        if pq.call_named(v, ".extend") and len(v[2]) == 2 and pq.call_named(v[2][1], "map") and len(v[2][1][2]) == 2:
+            pairs.append((v[2][1][2][1], v[2][1][2][0]))
+    pn = [k_ for k_, v in mod.imports.items() if v == "itertools.product"] + ["product", "itertools.product"]
+    for it, appended in pairs[:1]:
+        KEYSS = ["list(self.options.keys())", "list(self.options)", "self.options.keys()", "self.options", "tuple(self.options)", "tuple(self.options.keys())"]
+        forms = ["prod(*list(self.options.values()))", "prod(*self.options.values())"] + [f"prod(*[self.options[sk] for sk in {K_}])" for K_ in KEYSS]
+        it_ok = any(pq.same(_rename_call(it, pn), f_, env) for f_ in forms)
+        T = ('call', 'elem', (it,))
+        labs = [('call', 'py.dict', (('call', 'py.zip', (pq.parse(K_, env), T)),)) for K_ in KEYSS]
+        lab_ok = any(pq.same(appended, l_) for l_ in labs)
+        okp = it_ok and lab_ok
+        det = f"iterable {show(it)[:100]} ({it_ok}); appended {show(appended)[:100]} ({lab_ok})"
     rep.check(okp, "R19.b", rel, "OptionManager.from_cartesian_product", "tasks = itertools.product over the lists of ALL options, labelled with the same key order", det, line=cp.lineno)
 
     # ---------------- R19.c ----------------------------------------------------------------------------------------------------------
@@ -151,8 +198,15 @@ def run(rep):
               "taskid, context, options stored under their keys", str(sorted(wt or {}))[:200], line=tt.lineno)
     ft = mod.func("OptionTask.from_dict")
     fr = [p_ for p_ in pq.PEval().run(ft) if p_.how == "return"]
-    okc = len(fr) == 1 and (pq.same(fr[0].value, f"OptionTask(dd['taskid'], dd[{KN('context_name')}], dd[{KN('task_options_name')}])") or
-                            pq.same(fr[0].value, f"cls(dd['taskid'], dd[{KN('context_name')}], dd[{KN('task_options_name')}])"))
+    okc = False
+    if len(fr) == 1 and (pq.call_named(fr[0].value, "f:OptionTask") or pq.call_named(fr[0].value, "f:cls")):
+        v_ = fr[0].value
+        ini = mod.func("OptionTask.__init__")
+        pnames = [a.arg for a in ini.args.args][1:]
+        got_ = dict(zip(pnames, v_[2]))
+        got_.update({k_: x for k_, x in (v_[3] if len(v_) > 3 else ())})
+        want_ = {"taskid": "dd['taskid']", "context": f"dd[{KN('context_name')}]", "options": f"dd[{KN('task_options_name')}]"}
+        okc = set(got_) == set(want_) and len(v_[2]) <= len(pnames) and all(pq.same(got_[k_], w_) for k_, w_ in want_.items())
     rep.check(okc, "R19.c", rel, "OptionTask.from_dict", "constructor receives (taskid, context, options) from the keys to_dict writes them under", show(fr[0].value)[:160] if fr else "", line=ft.lineno)
     tm = mod.func("OptionManager.to_dict")
     mr = [p_ for p_ in pq.PEval().run(tm) if p_.how == "return"]
